@@ -60,9 +60,9 @@ type twinOpts struct {
 }
 
 type perturbation struct {
-	label  string
-	cfg    func(c *world.Config)
-	log    func(log []world.Action) []world.Action
+	label string
+	cfg   func(c *world.Config)
+	log   func(log []world.Action) []world.Action
 	// compare judges scan i of both runs; stop ends the comparison (legitimate divergence)
 	compare func(i int, sp scanPair) (v *world.Violation, stop bool, nontrivial string)
 }
